@@ -1855,3 +1855,59 @@ package goatlang
 //@   reveal Int
 //@   ensures#yield result2 ==> n == old(n) + 1 && old(n) < len(r) && result1 == r[old(n)] && result0.t == TypeInt32
 //@   ensures#done !result2 ==> old(n) == len(r) && n == old(n)
+
+// ---------------------------------------------------------------------------------------------
+// C08: lexical scoping. A shadowed binding of key k is parked under the alias "~"+k (and so on);
+// view(k) = [map[k], map["~"+k], map["~~"+k], ...] is the stack of live bindings of k.
+// ---------------------------------------------------------------------------------------------
+//@ func (*lookup).Exists
+//@   inline
+//@ func (*lookup).Index
+//@   property C08 C16
+//@   requires l != nil && l.keyToIndex != nil && len(l.indexToKey) == len(l.data) && l.cap >= len(l.data)
+//@   modifies fields(l) elems(l.data) elems(l.indexToKey) M$Str$Int$dom M$Str$Int$val M$Str$Int$card
+//@   allocates elems(Value) elems(string)
+//@   nopanic
+//@   ensures#existing old(haskey(l.keyToIndex, key)) ==> result == old(l.keyToIndex[key]) && len(l.data) == old(len(l.data)) && l.keyToIndex[key] == result && l.cap == old(l.cap)
+//@   ensures#fresh !old(haskey(l.keyToIndex, key)) ==> result == old(len(l.data)) && len(l.data) == old(len(l.data)) + 1 && haskey(l.keyToIndex, key) && l.keyToIndex[key] == result && l.indexToKey[result] == key
+//@   ensures#others forall k2 string :: k2 != key ==> haskey(l.keyToIndex, k2) == old(haskey(l.keyToIndex, k2)) && l.keyToIndex[k2] == old(l.keyToIndex[k2])
+//@   ensures#stable l.keyToIndex == old(l.keyToIndex) && len(l.indexToKey) == len(l.data) && l.cap >= len(l.data) && l.cap >= old(l.cap)
+//@
+//@ ghost chain(a string, k string) bool
+//@ axiom CHAIN
+//@   def forall a string :: chain(a, a)
+//@   def forall a string, k string :: chain("~"+a, k) ==> chain(a, k)
+//@   def forall a string, k string :: chain(a, k) ==> len(k) >= len(a)
+//@   def forall a string, k string :: chain(a, k) && k != a ==> chain("~"+a, k)
+//@
+//@ func (*lookup).unshadow
+//@   property C08
+//@   axioms CHAIN
+//@   requires l != nil && l.keyToIndex != nil
+//@   modifies M$Str$Int$dom M$Str$Int$val M$Str$Int$card
+//@   nopanic
+//@   ensures#restore old(haskey(l.keyToIndex, "~"+key)) ==> haskey(l.keyToIndex, key) && l.keyToIndex[key] == old(l.keyToIndex["~"+key])
+//@   ensures#nothing !old(haskey(l.keyToIndex, "~"+key)) ==> (forall k2 string :: haskey(l.keyToIndex, k2) == old(haskey(l.keyToIndex, k2)) && l.keyToIndex[k2] == old(l.keyToIndex[k2]))
+//@   ensures#exact old(haskey(l.keyToIndex, "~"+key)) ==> (haskey(l.keyToIndex, "~"+key) == old(haskey(l.keyToIndex, "~~"+key))) && (haskey(l.keyToIndex, "~"+key) ==> l.keyToIndex["~"+key] == old(l.keyToIndex["~~"+key]))
+//@   ensures#frame forall k2 string :: !chain(key, k2) ==> haskey(l.keyToIndex, k2) == old(haskey(l.keyToIndex, k2)) && l.keyToIndex[k2] == old(l.keyToIndex[k2])
+//@
+//@ func (*lookup).shadow
+//@   property C08
+//@   axioms CHAIN
+//@   requires l != nil && l.keyToIndex != nil
+//@   modifies M$Str$Int$dom M$Str$Int$val M$Str$Int$card
+//@   nopanic
+//@   ensures#hidden !haskey(l.keyToIndex, key)
+//@   ensures#parked old(haskey(l.keyToIndex, key)) ==> haskey(l.keyToIndex, "~"+key) && l.keyToIndex["~"+key] == old(l.keyToIndex[key])
+//@   ensures#deeper old(haskey(l.keyToIndex, key)) && old(haskey(l.keyToIndex, "~"+key)) ==> haskey(l.keyToIndex, "~~"+key) && l.keyToIndex["~~"+key] == old(l.keyToIndex["~"+key])
+//@   ensures#nothing !old(haskey(l.keyToIndex, key)) ==> (forall k2 string :: haskey(l.keyToIndex, k2) == old(haskey(l.keyToIndex, k2)) && l.keyToIndex[k2] == old(l.keyToIndex[k2]))
+//@   ensures#frame forall k2 string :: !chain(key, k2) ==> haskey(l.keyToIndex, k2) == old(haskey(l.keyToIndex, k2)) && l.keyToIndex[k2] == old(l.keyToIndex[k2])
+//@
+//@ func (*lookup).Shadow
+//@   property C08
+//@   requires l != nil && l.keyToIndex != nil && len(l.indexToKey) == len(l.data)
+//@   modifies fields(l) elems(l.data) elems(l.indexToKey) M$Str$Int$dom M$Str$Int$val M$Str$Int$card
+//@   allocates elems(Value) elems(string)
+//@   nopanic
+//@   ensures#fresh result == old(len(l.data)) && len(l.data) == old(len(l.data)) + 1 && haskey(l.keyToIndex, key) && l.keyToIndex[key] == result
+//@   ensures#parked old(haskey(l.keyToIndex, key)) ==> haskey(l.keyToIndex, "~"+key) && l.keyToIndex["~"+key] == old(l.keyToIndex[key])
